@@ -271,13 +271,77 @@ theorem clean_relative (n : Nat) (K : List Str) (hK : ∀ s ∈ K, VName s) :
   · exact Or.inl (List.eq_of_mem_replicate h)
   · exact clean_normals K hK c h
 
+theorem render_eq_nil (L : List Comp) (h : Clean L) (hr : render L = []) : L = [] := by
+  cases L with
+  | nil => rfl
+  | cons c L =>
+    obtain ⟨h1, _, _⟩ := cleanComp_str (h c (by simp))
+    cases L with
+    | nil => exact absurd hr h1
+    | cons d L =>
+      rw [render_cons_cons] at hr
+      simp at hr
+
+theorem toRelLinkUrlBare_normals (K D : List Str) (hK : ∀ s ∈ K, VName s) (hD : ∀ s ∈ D, VName s) :
+    ∃ P D' K', D = P ++ D' ∧ K = P ++ K' ∧
+      toRelLinkUrlBare (render (K.map .normal)) (render (D.map .normal))
+        = render (List.replicate D'.length .parent ++ K'.map .normal) := by
+  obtain ⟨P, D', K', h1, h2, h3⟩ := relative_normals D K
+  refine ⟨P, D', K', h1, h2, ?_⟩
+  rw [toRelLinkUrlBare, comps_render _ (clean_normals K hK), comps_render _ (clean_normals D hD), h3]
+
+/-- the bare url is empty only when the key is the linking directory itself -/
+theorem toRelLinkUrlBare_eq_nil (K D : List Str) (hK : ∀ s ∈ K, VName s) (hD : ∀ s ∈ D, VName s)
+    (hb : toRelLinkUrlBare (render (K.map .normal)) (render (D.map .normal)) = []) : K = D := by
+  obtain ⟨P, D', K', h1, h2, h3⟩ := toRelLinkUrlBare_normals K D hK hD
+  have hK' : ∀ s ∈ K', VName s := fun s hs => hK s (by simp [h2, hs])
+  have hnil := render_eq_nil _ (clean_relative _ K' hK') (h3 ▸ hb)
+  have h : D' = [] ∧ K' = [] := by
+    simpa [List.append_eq_nil_iff, List.replicate_eq_nil_iff] using hnil
+  rw [h1, h2, h.1, h.2]
+
+theorem toRelLinkUrl_of_bare_ne (key rel : Str) (h : toRelLinkUrlBare key rel ≠ []) :
+    toRelLinkUrl key rel = toRelLinkUrlBare key rel := by
+  simp [toRelLinkUrl, h]
+
+theorem fileName_normals (K : List Str) (k : Str) (hK : ∀ s ∈ K ++ [k], VName s) :
+    fileName (render ((K ++ [k]).map .normal)) = some k := by
+  rw [fileName, comps_render _ (clean_normals _ hK)]
+  simp [fileNameRev]
+
+/-- repair D34: a non-root key linked from the directory of the same name is written `../name` -/
+theorem toRelLinkUrl_of_bare_nil (K : List Str) (k : Str) (rel : Str)
+    (hK : ∀ s ∈ K ++ [k], VName s)
+    (hb : toRelLinkUrlBare (render ((K ++ [k]).map .normal)) rel = []) :
+    toRelLinkUrl (render ((K ++ [k]).map .normal)) rel = '.' :: '.' :: '/' :: k := by
+  simp only [toRelLinkUrl, hb, fileName_normals K k hK, if_true]
+
+theorem toRelLinkUrl_ne_nil (K D : List Str) (hK : ∀ s ∈ K, VName s) (hne : K ≠ []) :
+    toRelLinkUrl (render (K.map .normal)) (render (D.map .normal)) ≠ [] := by
+  by_cases hb : toRelLinkUrlBare (render (K.map .normal)) (render (D.map .normal)) = []
+  · rcases List.eq_nil_or_concat K with rfl | ⟨K0, k, rfl⟩
+    · exact absurd rfl hne
+    · simp only [List.concat_eq_append] at *
+      rw [toRelLinkUrl_of_bare_nil K0 k _ hK hb]
+      simp
+  · rw [toRelLinkUrl_of_bare_ne _ _ hb]
+    exact hb
+
 theorem toRelLinkUrl_normals (K D : List Str) (hK : ∀ s ∈ K, VName s) (hD : ∀ s ∈ D, VName s) :
     ∃ P D' K', D = P ++ D' ∧ K = P ++ K' ∧
       toRelLinkUrl (render (K.map .normal)) (render (D.map .normal))
         = render (List.replicate D'.length .parent ++ K'.map .normal) := by
-  obtain ⟨P, D', K', h1, h2, h3⟩ := relative_normals D K
-  refine ⟨P, D', K', h1, h2, ?_⟩
-  rw [toRelLinkUrl, comps_render _ (clean_normals K hK), comps_render _ (clean_normals D hD), h3]
+  by_cases hb : toRelLinkUrlBare (render (K.map .normal)) (render (D.map .normal)) = []
+  · have hKD := toRelLinkUrlBare_eq_nil K D hK hD hb
+    subst hKD
+    rcases List.eq_nil_or_concat K with rfl | ⟨K0, k, rfl⟩
+    · exact ⟨[], [], [], rfl, rfl, by decide⟩
+    · simp only [List.concat_eq_append] at *
+      refine ⟨K0, [k], [k], rfl, rfl, ?_⟩
+      rw [toRelLinkUrl_of_bare_nil K0 k _ hK hb]
+      rfl
+  · obtain ⟨P, D', K', h1, h2, h3⟩ := toRelLinkUrlBare_normals K D hK hD
+    exact ⟨P, D', K', h1, h2, by rw [toRelLinkUrl_of_bare_ne _ _ hb, h3]⟩
 
 theorem resolve_relative_core (K D : List Str) (hK : ∀ s ∈ K, VName s) (hD : ∀ s ∈ D, VName s)
     (hmd : endsMd (render (K.map .normal)) = false) :
@@ -344,7 +408,15 @@ theorem join_partial_core (K D : List Str) (hK : ∀ s ∈ K, VName s) (hD : ∀
     simp
   have hmdK : endsMd (render (K.map .normal)) = false := by
     simpa using endsMd_relative 0 D K hmd
-  rw [toRelLinkUrl, comps_render _ (clean_normals _ hDK), comps_render _ (clean_normals D hD), hrel,
+  have hbare : toRelLinkUrlBare (render ((D ++ K).map .normal)) (render (D.map .normal))
+      = render (K.map .normal) := by
+    rw [toRelLinkUrlBare, comps_render _ (clean_normals _ hDK), comps_render _ (clean_normals D hD),
+      hrel]
+  have hbne : toRelLinkUrlBare (render ((D ++ K).map .normal)) (render (D.map .normal)) ≠ [] := by
+    rw [hbare]
+    intro h
+    exact hne (List.map_eq_nil_iff.1 (render_eq_nil _ (clean_normals K hK) h))
+  rw [toRelLinkUrl_of_bare_ne _ _ hbne, hbare,
     fromRelLinkUrlJoin, trimMd_of_not_endsMd _ hmdK, pushStr_render D K hD hK hne]
 
 end Iwe.Path
